@@ -100,8 +100,8 @@ def errorResponse (w : ErrWriter) (cfg : Cfg) (err : GoErr) : Option Response :=
         (errorParams e).bind (fun ps =>
           let ps := ps ++ [(kState, ar.state)]
           if ar.mode = mFormPost then
-            some { status := 200, headers := noStore ++ [(hCT, ctHTML)], bodyKind := .html, target := ar.redirBase,
-                   fields := strFields .query ar.redirQuery ++ strFields .form ps }
+            some { status := 200, headers := noStore ++ [(hCT, ctHTML)], bodyKind := .html, target := formTarget ar,
+                   fields := strFields .query (formQuery ar) ++ strFields .form ps }
           else if ar.mode = mFragment then
             some { status := 303, headers := noStore ++ [(hLocation, "*")], bodyKind := .empty, target := ar.redirBase,
                    fields := strFields .query ar.redirQuery ++ strFields .fragment ps }
@@ -152,8 +152,8 @@ def authorizeResponse (ar : AuthReq) (respHeaders : Headers) (params : List (Byt
   else
     let h := respHeaders ++ noStore
     if ar.mode = mFormPost then
-      some { status := 200, headers := h ++ [(hCT, ctHTML)], bodyKind := .html, target := ar.redirBase,
-             fields := strFields .query ar.redirQuery ++ strFields .form params }
+      some { status := 200, headers := h ++ [(hCT, ctHTML)], bodyKind := .html, target := formTarget ar,
+             fields := strFields .query (formQuery ar) ++ strFields .form params }
     else if ar.mode = mQuery ∨ ar.mode = [] then
       some { status := 303, headers := h ++ [(hLocation, "*")], bodyKind := .empty, target := ar.redirBase,
              fields := strFields .query (ar.redirQuery ++ params) }
